@@ -9,7 +9,9 @@
   driver evaluates on the real handler's traces; `runCall` is the function the driver replays.
 
   All theorems hold for every history (any length), any number of services, any SIDs, any reaction
-  scripts; the only hypothesis is `callWF`: caller-supplied timeouts are not negative.
+  scripts.  `callWF` (caller-supplied timeouts are not negative) is needed only for request validity and
+  the returned/requested timeout (`requests_valid`, `c09_history`); the registry, fallback, target and
+  unsubscribe clauses hold without it (`call_facts_unconditional`, `registry_mirrors`, …).
 -/
 import Upnp.Lemmas.C09Hist
 namespace Upnp.C09
@@ -21,7 +23,7 @@ open Upnp PyDict
 theorem requests_valid (cfg : Cfg) (rt : Routing) (c : Call) (rs : List Reaction)
     (hn : (keys rt).Nodup) (hw : callWF c) :
     ∀ e ∈ (runCall cfg rt c rs).exch, validReq e.req = true := by
-  have h := (runCall_ok cfg rt c rs hn hw).valid
+  have h := (runCall_ok cfg rt c rs hn).valid hw
   rw [List.all_eq_true] at h
   exact h
 
@@ -54,8 +56,8 @@ theorem wire_timeout_is_requested (cfg : Cfg) (svc : Nat) (sid : Str) (t : Int) 
 /-- **Not routed while the UNSUBSCRIBE is in flight** (audit C09-1): every UNSUBSCRIBE of every call arrives at
     the publisher with its SID already unrouted. -/
 theorem unsubscribe_unrouted_on_arrival (cfg : Cfg) (susp : Bool) (rt : Routing) (c : Call) (rs : List Reaction)
-    (hn : (keys rt).Nodup) (hw : callWF c) : unsubIssuedOk (runCallS cfg susp rt c rs).exch = true :=
-  (judgeFacts_runCallS cfg susp rt c rs hn hw).unsubIssued
+    (hn : (keys rt).Nodup) : unsubIssuedOk (runCallS cfg susp rt c rs).exch = true :=
+  (judgeFacts_runCallS cfg susp rt c rs hn).unsubIssued
 
 /-- the driver's diagnostic walk is the judge: a trace is accepted iff no step is reported -/
 theorem ok_iff_no_first_bad (exp : PyDict Str Nat) (l : List Step) (i : Nat) :
@@ -74,16 +76,27 @@ theorem ok_iff_no_first_bad (exp : PyDict Str Nat) (l : List Step) (i : Nat) :
 /-- in the non-suspending model the fallback SUBSCRIBE immediately follows its refused renewal, and an
     unreachable renewal is never followed by a fresh SUBSCRIBE for its service -/
 theorem fallback_adjacent_sequential (cfg : Cfg) (rt : Routing) (c : Call) (rs : List Reaction)
-    (hn : (keys rt).Nodup) (hw : callWF c) : fallbackAdjacent (runCall cfg rt c rs).exch = true :=
-  (runCall_ok cfg rt c rs hn hw).adjacent
+    (hn : (keys rt).Nodup) : fallbackAdjacent (runCall cfg rt c rs).exch = true :=
+  (runCall_ok cfg rt c rs hn).adjacent
 
 /-- **The registry mirrors the publisher**: after one more call — whatever the publisher answered, an
     unparsable granted TIMEOUT included — the routing table is the publisher-side fold of that call's
     exchanges (granted ∖ unsubscribed ∖ lost). -/
 theorem registry_mirrors (cfg : Cfg) (susp : Bool) (rt : Routing) (c : Call) (rs : List Reaction)
-    (hn : (keys rt).Nodup) (hw : callWF c) :
+    (hn : (keys rt).Nodup) :
     (runCallS cfg susp rt c rs).rt = (runCallS cfg susp rt c rs).exch.foldl foldExch rt :=
-  (judgeFacts_runCallS cfg susp rt c rs hn hw).mirror.symm
+  (judgeFacts_runCallS cfg susp rt c rs hn).mirror.symm
+
+/-- **Everything but request validity and the returned timeout holds for every call, whatever timeout the caller
+    passes** (negative ones included): the registry stays the publisher-side fold with distinct SIDs, the fallback
+    count, the targets of the requests and "unrouted when the UNSUBSCRIBE arrives". -/
+theorem call_facts_unconditional (cfg : Cfg) (susp : Bool) (rt : Routing) (c : Call) (rs : List Reaction)
+    (hn : (keys rt).Nodup) :
+    let o := runCallS cfg susp rt c rs
+    (keys o.rt).Nodup ∧ o.exch.foldl foldExch rt = o.rt ∧ fallbackOk c o.exch = true
+    ∧ unsubIssuedOk o.exch = true ∧ ∀ r s, targetOk ⟨c, o.exch, o.res, r, s⟩ = true :=
+  let h := judgeFacts_runCallS cfg susp rt c rs hn
+  ⟨h.nodup, h.mirror, h.fallback, h.unsubIssued, h.target⟩
 
 /-- the conversion of the granted TIMEOUT is guarded in both `async_subscribe` and `_async_do_resubscribe`
     (read from the source): an unparsable value cannot make a granted subscription half-registered -/
@@ -201,6 +214,12 @@ def exHist : List (Call × List Reaction) :=
     (.unsubscribeAll, [.connErr]) ]
 
 example : ∀ p ∈ exHist, callWF p.1 := by decide
+/-- `call_facts_unconditional` is not vacuous outside `callWF`: a negative timeout is not well-formed, the model
+    still registers the granted SID for the service, and the publisher-side fold gives that same table -/
+example : ¬ callWF (.subscribe 0 (-5)) := by decide
+example : (runCallS exCfg false [] (.subscribe 0 (-5)) [.resp 200 (some sA) none]).rt = [(sA, 0)]
+    ∧ (runCallS exCfg false [] (.subscribe 0 (-5)) [.resp 200 (some sA) none]).exch.foldl foldExch [] = [(sA, 0)] := by
+  decide
 /-- the example history is inside the domain at every step and the judge accepts it (evaluated) -/
 example : (modelTrace exCfg [sA, sB, sC] 2 [] exHist).all stepInScope = true := by decide
 /-- a renewal answered with a new SID and `Second-abc`: judged, accepted (old SID gone, new one routed) -/
